@@ -142,8 +142,40 @@ func (o *Obligation) hypotheses() []*Term {
 	return hs
 }
 
+// splitConj splits a hypothesis into its conjuncts (also under an implication), so that the
+// quantifier-free part of an invariant is still available when quantified hypotheses are dropped.
+func splitConj(h *Term, out []*Term) []*Term {
+	switch {
+	case h.Op == "and":
+		for _, a := range h.Args {
+			out = splitConj(a, out)
+		}
+		return out
+	case h.Op == "=>" && h.Args[1].Op == "and" && hasQuant(h.Args[1]):
+		for _, a := range h.Args[1].Args {
+			out = splitConj(Implies(h.Args[0], a), out)
+		}
+		return out
+	}
+	return append(out, h)
+}
+
 func (o *Obligation) variants() []scriptVariant {
-	hs := o.hypotheses()
+	hs0 := o.hypotheses()
+	nAxioms := len(o.Root.axioms)
+	var hs []*Term
+	var tags []string
+	for i, h := range hs0 {
+		tag := ""
+		if i >= nAxioms && i-nAxioms < len(o.Root.assumeNotes) {
+			tag = o.Root.assumeNotes[i-nAxioms]
+		}
+		parts := splitConj(h, nil)
+		for _, p := range parts {
+			hs = append(hs, p)
+			tags = append(tags, tag)
+		}
+	}
 	goal := []*Term{o.Path, Not(o.Cond)}
 	var qf, quant []*Term
 	for _, h := range hs {
@@ -190,19 +222,14 @@ func (o *Obligation) variants() []scriptVariant {
 	// "self": for a loop invariant clause, the quantified hypotheses that come from the engine
 	// (copy/frame/range axioms) and from the same clause (plus clauses labelled shape*/core*)
 	if o.Clause != nil && (o.Kind == "invariant-pres" || o.Kind == "invariant-entry") {
-		root := o.Root
 		var self []*Term
-		nAx := len(root.axioms)
 		nsel := 0
 		for i, h := range hs {
 			if !hasQuant(h) {
 				self = append(self, h)
 				continue
 			}
-			tag := ""
-			if i >= nAx && i-nAx < len(root.assumeNotes) {
-				tag = root.assumeNotes[i-nAx]
-			}
+			tag := tags[i]
 			isDep := false
 			for _, d := range o.Clause.Deps {
 				if tag == "inv:"+d {
@@ -226,10 +253,7 @@ func (o *Obligation) variants() []scriptVariant {
 				lite = append(lite, h)
 				continue
 			}
-			tag := ""
-			if i >= nAx && i-nAx < len(root.assumeNotes) {
-				tag = root.assumeNotes[i-nAx]
-			}
+			tag := tags[i]
 			if (tag == "" && engineOK(h)) || tag == "inv:"+o.Clause.Label || (tag != "" && !hasHardQuant(h)) {
 				lite = append(lite, h)
 				nl++
